@@ -324,7 +324,16 @@ GetOut(a, d) ==
 ---------------------------------------------------------------------------
 BodyWriters == {"Set", "SetRaw", "Add", "AddRaw", "WriteCas", "Update", "Incr"}
 
+SizeChecked == {"Set", "SetRaw", "Add", "AddRaw", "WriteCas", "Update", "SetXattrs", "UpdateXattrs", "WriteWithXattrs",
+                "WriteTombstoneWithXattrs", "WriteResurrectionWithXattrs", "WriteUpdateWithXattrs"}
+XattrValidated == {"SetXattrs", "UpdateXattrs", "WriteWithXattrs", "WriteTombstoneWithXattrs",
+                   "WriteResurrectionWithXattrs", "WriteUpdateWithXattrs"}
+
 Outcomes(op, a, d, n) ==
+    \* C07: a write that fails because a value is too large or an xattr is not JSON changes nothing
+    IF a.badx /\ op \in XattrValidated THEN Unch(d, {"other", "argError"} \cup RefCas)
+    ELSE IF a.big /\ op \in SizeChecked THEN Unch(d, {"tooBig", "argError"} \cup RefCas)
+    ELSE
     CASE op = "Set"      -> SetOut(a, d, n, TRUE)
       [] op = "SetRaw"   -> SetOut(a, d, n, FALSE)
       [] op = "Add"      -> AddOut(a, d, n, TRUE)
